@@ -1,5 +1,6 @@
 #!/usr/bin/env python3
 """C02 - generated router serves exactly the annotated routes and dispatches correctly."""
+import copy
 import json
 import os
 import random
@@ -56,7 +57,7 @@ def main():
     replay_seq = None
     if a.replay and "sequence" in json.load(open(a.replay))["input"]:
         rp = json.load(open(a.replay))
-        replay_seq = [{"engine": rp.get("engine", "gin"), "sequence": [(x["edit"], x["project"]) for x in rp["input"]["sequence"]]}]
+        replay_seq = [{"engine": rp.get("engine", "gin"), "sequence": [(x["edit"], x["project"], x.get("extra")) for x in rp["input"]["sequence"]]}]
         projects = [rp["input"]["sequence"][-1]["project"]]
     elif a.replay:
         projects = [json.load(open(a.replay))["input"]]
@@ -152,6 +153,24 @@ def main():
         q = C12.clean_project(p)
         chosen.append(q)
     chosen.append(C12.clean_project(projects[0], "doubled"))
+    # a literal route declared BEFORE its parameterised sibling (same verb, one controller): every engine must serve the
+    # literal path by the literal method (routers that match in registration order depend on the order being kept)
+    ov = copy.deepcopy(C12.clean_project(projects[0]))
+    ov["controllers"] = ov["controllers"][:1]
+    oc = ov["controllers"][0]
+    oc.update({"name": "OvCtl", "route": "/ov", "security": [], "shape": "plain"})
+
+    def ovm(name, route, params):
+        return {"name": name, "verb": "GET", "route": route, "hidden": False, "deprecated": False, "security": [],
+                "params": params, "ret": "string", "errtype": "error", "response": None, "errors": [], "descr": "", "file": 0}
+    pid = {"name": "id", "ctx": False, "loc": "path", "alias": None, "type": "string", "pointer": False, "validator": None,
+           "slice": False}
+    oc["methods"] = [ovm("ZLit", "/users/me", []), ovm("AParam", "/users/{id}", [dict(pid)]),
+                     ovm("YDeep", "/users/me/settings", []), ovm("BDeep", "/users/{id}/settings", [dict(pid)]),
+                     ovm("CNeg", "/neg/{n}", [dict(pid, name="n", type="int")]),
+                     ovm("DNeg", "/neg64/{n}/x", [dict(pid, name="n", type="int64")])]
+    ov["config"]["default_security"] = None
+    chosen.append(ov)
     h = servers.build_servers(PROP + "_srv", chosen)
     reqs, rmeta = [], []
     for k, p in enumerate(chosen):
@@ -171,6 +190,16 @@ def main():
                 # drop a real segment (a trailing slash alone is the frameworks' strict-slash business)
                 variants.append(("missing-segment", rq["method"], core.rsplit("/", 1)[0]))
             variants.append(("other-prefix", rq["method"], "/nosuchprefix" + rq["path"]))
+            # a negative value of a signed integer path parameter is a documented value: same method
+            for prm in m["params"]:
+                vv = "/" + C12.VALID.get(prm["type"], "?")
+                if (not prm["ctx"]) and prm["loc"] == "path" and prm["type"] in ("int", "int64", "int8") and not prm["validator"] \
+                        and rq["path"].count(vv) == 1:
+                    variants.append(("exact", rq["method"], rq["path"].replace(vv, "/-7", 1)))
+                    break
+            if p is ov:
+                # the near misses of one route are other routes of this project: only the documented paths are asked
+                variants = [v for v in variants if v[0] == "exact"]
             for kind, verb, path in variants:
                 for e in R.ENGINES:
                     if not h.usable(k, e):
